@@ -151,6 +151,8 @@ def run(ctx):
     # (3) a session whose task is stuck behind its unread output, ended by KILL / close / reset, and the nickname's
     # next owner
     common.run_stuck(ctx, res)
+    # a member's leaving in the middle of other members' traffic costs nobody else anything
+    common.run_storm_kinds(ctx, res, "c06:", ["quitflood"], 3, 20)
     res.rule = ("(stuck sessions) a client owed ~10 MB of replies stops reading, is KILLed / closes / resets; the nickname "
                 "is claimed meanwhile and afterwards: the claimant stays registered, bystanders and channels are untouched, "
                 "the ended user's sole channel is gone, invariants hold. "
